@@ -455,8 +455,15 @@ pub fn gen_submit_spec(
         // DAG
         let n_reqs = rng.range(1, 3) as usize;
         let reqs: Vec<ReqSpec> = (0..n_reqs).map(|_| gen_req(rng, p)).collect();
+        // task ids need not grow from submit to submit: a later submit into an open job may use
+        // ids below everything the job already has (and depend on those tasks)
+        let min_existing = existing.iter().min().copied();
         let start = if into.is_some() {
-            base + rng.below(3) as u32
+            match min_existing {
+                Some(m) if m as u64 >= n && rng.chance(35, 100) => rng.below(m as u64 - n + 1) as u32,
+                None if rng.chance(45, 100) => 30 + rng.below(30) as u32,
+                _ => base + rng.below(3) as u32,
+            }
         } else {
             rng.below(3) as u32
         };
@@ -898,6 +905,11 @@ impl Generator {
                     job: pick_job(rng, &jobs),
                 },
             },
+            12 if rng.chance(20, 100) && sim.clients.iter().any(|c| c.state == ClientState::Streaming && !c.stream_completed) => {
+                // a waiting client gives up
+                let waiting: Vec<usize> = sim.clients.iter().enumerate().filter(|(_, c)| c.state == ClientState::Streaming && !c.stream_completed).map(|(i, _)| i).collect();
+                Action::HangUp { client: *rng.pick(&waiting) }
+            }
             12 => Action::Req {
                 client: usize::MAX,
                 req: if jobs.is_empty() || rng.chance(40, 100) {
